@@ -10,3 +10,135 @@ H("varint_decode_total", ["C10", "C03"], "quick", "varint::decode_total", [("byt
   ["Ok", "UnexpectedEnd"],
   ["VarInt::decode"],
   "every buffer of 0..=9 arbitrary bytes")
+
+# ------------------------------------------------------------------ spaces.rs: Dedup (C01.a, C04), PendingAcks (C03.f)
+H("dedup_insert_step", ["C01", "C04"], "quick", "connection::spaces::dedup_insert_step",
+  [("window", "u128"), ("next", "u64"), ("p", "u64"), ("q", "u64")], 4,
+  ["reached", "duplicate via bitfield", "late fresh packet accepted", "jump beyond window", "left of window"],
+  ["Dedup::insert", "Dedup::highest"],
+  "every window: u128, next <= 2^62, packet numbers p, q < 2^62 (one inductive step from an arbitrary state)")
+H("dedup_new_is_empty", ["C01", "C04"], "quick", "connection::spaces::dedup_new_is_empty", [("x", "u64")], 4,
+  ["reached"], ["Dedup::new", "Dedup::insert"], "every x: u64 (base case of the induction)")
+H("dedup_smallest_missing", ["C03"], "quick", "connection::spaces::dedup_smallest_missing",
+  [("window", "u128"), ("next", "u64"), ("lo", "u64"), ("hi", "u64"), ("y", "u64")], 4,
+  ["Some", "None"], ["Dedup::smallest_missing_in_interval", "Dedup::missing_in_interval"],
+  "every window: u128, 1 <= next <= 2^62, lo <= hi <= next-1, witness y: u64")
+H("pending_acks_packet_received", ["C03"], "quick", "connection::spaces::pending_acks_packet_received",
+  [("window", "u128"), ("next", "u64"), ("pn", "u64"), ("ack_eliciting", "bool"), ("immediate", "bool"),
+   ("eliciting", "u64"), ("non_eliciting", "u64"), ("threshold", "u64"), ("reordering", "u64"), ("armed", "bool"),
+   ("has_le", "bool"), ("le", "u64"), ("has_la", "bool"), ("la", "u64")], 4,
+  ["reached", "non-eliciting", "threshold exceeded", "older than previous largest", "no ack needed", "draft reordering rule"],
+  ["PendingAcks::packet_received", "PendingAcks::is_out_of_order", "PendingAcks::can_send", "Dedup::smallest_missing_in_interval"],
+  "every peer-chosen ack_eliciting_threshold / reordering_threshold < 2^62, counters < 2^62, any dedup state containing pn; ranges empty")
+H("pending_acks_bookkeeping", ["C03"], "quick", "connection::spaces::pending_acks_bookkeeping",
+  [("immediate", "bool"), ("eliciting", "u64"), ("non_eliciting", "u64"), ("threshold", "u64"), ("has_le", "bool"), ("le", "u64"), ("which", "u8")], 4,
+  ["acks_sent", "max_ack_delay timeout", "lazy ack"],
+  ["PendingAcks::acks_sent", "PendingAcks::on_max_ack_delay_timeout", "PendingAcks::maybe_ack_non_eliciting", "PendingAcks::can_send"],
+  "all u64 counters")
+H("detect_ecn", ["C03"], "quick", "connection::spaces::detect_ecn",
+  [("newly_acked", "u64"), ("e0", "u64"), ("e1", "u64"), ("ce", "u64"), ("f0", "u64"), ("f1", "u64"), ("fce", "u64")], 4,
+  ["Ok no congestion", "Ok congestion", "Err"], ["PacketSpace::detect_ecn", "PacketSpace::new"],
+  "every ECN counter < 2^62 (varint domain), newly_acked: u64")
+H("pn_filter_check_ack", ["C03", "C12"], "quick", "connection::spaces::pn_filter_check_ack",
+  [("next_skipped", "u64"), ("has_prev", "bool"), ("prev", "u64"), ("exponent", "u32"), ("space", "u8"), ("lo", "u64"), ("hi", "u64"), ("next_pn", "u64")], 4,
+  ["accepted", "rejected"], ["PacketNumberFilter::check_ack", "PacketNumberFilter::peek"],
+  "all u64 values, all three spaces")
+H("get_tx_number", ["C12"], "quick", "connection::spaces::get_tx_number", [("next_pn", "u64"), ("sent_with_keys", "u64")], 8,
+  ["reached"], ["PacketSpace::get_tx_number"], "next_packet_number < 2^62-1")
+
+# ------------------------------------------------------------------ packet.rs / shared.rs (C10, C01.b, C03)
+H("pn_roundtrip", ["C10", "C01"], "quick", "packet::pn_roundtrip",
+  [("n", "u64"), ("largest_acked", "u64"), ("expected", "u64")], 6,
+  ["reached", "1-byte", "2-byte", "3-byte", "4-byte", "n below expected", "n above expected"],
+  ["PacketNumber::new", "PacketNumber::len", "PacketNumber::tag", "PacketNumber::encode", "PacketNumber::decode_len",
+   "PacketNumber::decode", "PacketNumber::expand"],
+  "every largest_acked <= n < 2^62 with 2(n-largest_acked) < 2^32, every expected <= 2^62 with expected-hwin < n <= expected+hwin")
+H("pn_decode_expand_total", ["C10", "C03"], "quick", "packet::pn_decode_expand_total",
+  [("bytes", "[u8; 4]"), ("tag", "u8"), ("expected", "u64")], 6,
+  ["1-byte", "2-byte", "3-byte", "4-byte"],
+  ["PacketNumber::decode_len", "PacketNumber::decode", "PacketNumber::expand"],
+  "every first-byte tag, every 4 wire bytes, every expected <= 2^62")
+H("long_type_roundtrip", ["C10"], "quick", "packet::long_type_roundtrip", [("b", "u8")], 4,
+  ["Initial", "Retry", "Handshake", "0-RTT"], ["LongHeaderType::from_byte", "From<LongHeaderType> for u8"],
+  "every first byte with the long-header bit set")
+H("cid_long_roundtrip", ["C10"], "quick", "shared::cid_long_roundtrip", [("bytes", "[u8; 20]"), ("len", "usize")], 22,
+  ["reached", "zero-length", "20 bytes"],
+  ["ConnectionId::new", "ConnectionId::encode_long", "ConnectionId::decode_long", "ConnectionId::from_buf"],
+  "every length 0..=20, every content")
+H("cid_decode_long_total", ["C10", "C03"], "quick", "shared::cid_decode_long_total", [("buf", "[u8; 22]"), ("n", "usize")], 24,
+  ["Some", "None"], ["ConnectionId::decode_long"], "every buffer of 0..=22 arbitrary bytes")
+
+# ------------------------------------------------------------------ send_buffer.rs (C01.c)
+H("sendbuf_poll_transmit_new", ["C01"], "quick", "connection::send_buffer::poll_transmit_new",
+  [("offset", "u64"), ("unsent", "u64"), ("unacked_len", "usize"), ("max_len", "usize")], 12,
+  ["reached", "length encoded", "length omitted (fills packet)", "partial", "8-byte offset"],
+  ["SendBuffer::poll_transmit", "SendBuffer::has_unsent_data", "VarInt::size"],
+  "every buffer state offset-unacked_len <= unsent <= offset < 2^62, 16 <= max_len <= 2^20; empty retransmit set")
+H("sendbuf_accessors", ["C01"], "quick", "connection::send_buffer::accessors",
+  [("offset", "u64"), ("unsent", "u64"), ("unacked_len", "usize")], 6, ["reached"],
+  ["SendBuffer::offset", "SendBuffer::is_fully_acked", "SendBuffer::has_unsent_data", "SendBuffer::unacked"], "all u64 states")
+H("sendbuf_poll_transmit_retransmit", ["C01"], "thorough", "connection::send_buffer::poll_transmit_retransmit",
+  [("offset", "u64"), ("unsent", "u64"), ("lo", "u64"), ("hi", "u64"), ("max_len", "usize")], 12,
+  ["whole range", "split range"], ["SendBuffer::retransmit", "SendBuffer::poll_transmit", "RangeSet::insert", "RangeSet::pop_min"],
+  "one lost range lo<hi<=unsent<=offset<2^62, 17 <= max_len <= 2^16", heavy=True)
+
+# ------------------------------------------------------------------ streams/send.rs (C05.b, C11.a)
+H("send_write", ["C05", "C11"], "quick", "connection::streams::send::write",
+  [("kind", "u8"), ("stopped", "bool"), ("stop_code", "u64"), ("max_data", "u64"), ("offset", "u64"), ("limit", "u64"), ("src_len", "usize")], 6,
+  ["accepted", "ClosedStream", "Stopped", "Blocked", "cut by stream credit", "cut by limit"],
+  ["Send::write", "Send::is_writable", "SendBuffer::write", "SendBuffer::offset"],
+  "every half-state, offset <= max_data < 2^62, any limit: u64, source length <= 65536 (one chunk, static bytes)")
+H("send_half_state_ops", ["C11", "C05"], "quick", "connection::streams::send::half_state_ops",
+  [("kind", "u8"), ("stopped", "bool"), ("stop_code", "u64"), ("fin_pending", "bool"), ("max_data", "u64"), ("offset", "u64"), ("op", "u8"), ("arg", "u64")], 6,
+  ["finish", "reset", "try_stop", "increase_max_data", "queries"],
+  ["Send::finish", "Send::reset", "Send::try_stop", "Send::increase_max_data", "Send::is_writable", "Send::is_reset", "Send::is_pending"],
+  "every abstract half-state {Ready, DataSent{acked?}, ResetSent} x stopped? x every u64 argument < 2^62")
+H("send_ack_completion", ["C11"], "quick", "connection::streams::send::ack_completion",
+  [("kind", "u8"), ("fin", "bool"), ("outstanding", "bool")], 6,
+  ["not complete", "complete"], ["Send::ack", "SendBuffer::ack", "SendBuffer::is_fully_acked"],
+  "every half-state x fin x {0, 5} bytes outstanding; acknowledged range empty (range-set mechanics outside the claim)")
+
+# ------------------------------------------------------------------ streams/recv.rs (C06.a, C01.d, C11.b)
+H("recv_ingest_stopped", ["C06", "C01", "C11", "C03"], "quick", "connection::streams::recv::ingest_stopped",
+  [("kind", "u8"), ("size", "u64"), ("sent_max", "u64"), ("end", "u64"), ("offset", "u64"), ("len", "u16"), ("fin", "bool"), ("received", "u64"), ("max_data", "u64")], 6,
+  ["accepted", "offset overflow", "FINAL_SIZE_ERROR", "FLOW_CONTROL_ERROR", "pure duplicate", "fin"],
+  ["Recv::ingest", "Recv::credit_consumed_by", "Recv::final_offset"],
+  "stopped stream; every state with end <= sent_max <= 2^62 (and end <= final size), offset < 2^62, length <= 65535, received/max_data < 2^62")
+H("recv_reset", ["C06", "C11", "C03"], "quick", "connection::streams::recv::reset",
+  [("kind", "u8"), ("size", "u64"), ("code0", "u64"), ("sent_max", "u64"), ("end", "u64"), ("stopped", "bool"), ("final_offset", "u64"), ("code", "u64"), ("received", "u64"), ("max_data", "u64")], 6,
+  ["reset accepted", "FINAL_SIZE_ERROR", "FLOW_CONTROL_ERROR", "redundant"],
+  ["Recv::reset", "Recv::credit_consumed_by", "Recv::reset_code", "Recv::is_receiving"],
+  "every state, final_offset/code < 2^62")
+H("recv_stop", ["C06", "C11"], "quick", "connection::streams::recv::stop",
+  [("kind", "u8"), ("size", "u64"), ("sent_max", "u64"), ("end", "u64"), ("bytes_read", "u64"), ("stopped", "bool")], 6,
+  ["stopped now", "already stopped"], ["Recv::stop", "Assembler::clear", "Assembler::bytes_read"], "every state with bytes_read <= end; empty reassembly buffer")
+H("recv_max_stream_data", ["C06"], "quick", "connection::streams::recv::max_stream_data",
+  [("kind", "u8"), ("size", "u64"), ("sent_max", "u64"), ("end", "u64"), ("bytes_read", "u64"), ("stopped", "bool"), ("window", "u64"), ("sent_value", "u64")], 6,
+  ["no update", "update wanted"], ["Recv::max_stream_data", "Recv::record_sent_max_stream_data", "Recv::can_send_flow_control"],
+  "every state with sent_max <= bytes_read + window, window < 2^62")
+
+# ------------------------------------------------------------------ streams/state.rs (C05.a, C06.b, C06.c)
+H("streams_write_limit", ["C05"], "quick", "connection::streams::state::write_limit_and_max_data",
+  [("max_data", "u64"), ("data_sent", "u64"), ("unacked", "u64"), ("send_window", "u64"), ("update", "u64")], 6,
+  ["reached", "stale MAX_DATA", "no credit", "send window shrunk below unacked"],
+  ["StreamsState::write_limit", "StreamsState::received_max_data"], "data_sent <= max_data < 2^62, every unacked/send_window: u64, update < 2^62")
+H("streams_received_max_streams", ["C05", "C03"], "quick", "connection::streams::state::received_max_streams",
+  [("uni", "bool"), ("cur", "u64"), ("count", "u64"), ("blocked", "bool")], 6,
+  ["raised", "FRAME_ENCODING_ERROR", "stale"], ["StreamsState::received_max_streams"], "cur <= 2^60, every count: u64")
+H("streams_validate_receive_id", ["C06", "C03"], "quick", "connection::streams::state::validate_receive_id",
+  [("server", "bool"), ("raw_id", "u64"), ("next_bi", "u64"), ("max_remote_bi", "u64"), ("max_remote_uni", "u64")], 6,
+  ["own bidi ok", "STREAM_STATE_ERROR", "STREAM_LIMIT_ERROR", "remote ok"], ["StreamsState::validate_receive_id", "StreamId::initiator", "StreamId::dir", "StreamId::index"],
+  "every stream id < 2^62, both sides, every limit: u64")
+H("streams_add_read_credits", ["C06"], "quick", "connection::streams::state::add_read_credits",
+  [("local_max", "u64"), ("sent_max", "u64"), ("window", "u64"), ("debt", "u64"), ("credits", "u64")], 6,
+  ["no update", "update wanted", "debt paid off", "limit beyond varint"], ["StreamsState::add_read_credits"],
+  "sent_max <= local_max, sent_max/window < 2^62, every debt/credits: u64")
+H("streams_set_receive_window", ["C06"], "quick", "connection::streams::state::set_receive_window",
+  [("local_max", "u64"), ("window", "u64"), ("debt", "u64"), ("new_window", "u64")], 6,
+  ["expanded", "shrunk"], ["StreamsState::set_receive_window"], "windows < 2^62, every local_max/debt: u64")
+H("streams_queue_max_stream_id", ["C06"], "quick", "connection::streams::state::queue_max_stream_id",
+  [("max_remote_bi", "u64"), ("sent_bi", "u64"), ("conc_bi", "u64"), ("max_remote_uni", "u64"), ("sent_uni", "u64"), ("conc_uni", "u64")], 6,
+  ["reached", "bidi queued", "uni queued"], ["StreamsState::queue_max_stream_id"], "sent <= max_remote, all u64")
+H("streams_max_send_data", ["C05"], "quick", "connection::streams::state::max_send_data",
+  [("server", "bool"), ("raw_id", "u64"), ("uni", "u64"), ("bidi_local", "u64"), ("bidi_remote", "u64")], 6,
+  ["reached"], ["StreamsState::max_send_data", "StreamsState::is_local_unopened"], "every id/limit < 2^62")
